@@ -60,8 +60,9 @@ def evalWm (st : DState) (name : String) (t : List String) (impl : String) : Eva
      | ["mapupwith", i, v] => let i := num i; let v := num v
        let x := v % 2 ^ width
        let fst := specFirst width V x
-       -- defined when the index is inside the value's range; below `first` the code underflows (F4) — not specified
-       let spec := if i ≥ fst then some (rOptNat ((occIndices V x)[i - fst]?)) else none
+       -- inside the value's range: the index of that occurrence; anywhere else (also below `first`, where the code as
+       -- first written underflowed: F4, repaired) no position maps down to (i, value): None
+       let spec := if i ≥ fst then some (rOptNat ((occIndices V x)[i - fst]?)) else some (rOptNat none)
        res (render rOptNat (c.mapUpWith m i v)) spec (if i ≥ fst then "wmc.mapup" else "wmc.mapup.below")
      | ["doc"] | ["ser"] => res (rWords (wmCoreC.ser c)) none "wmc.ser"
      | _ => res "driver:unknown-core-op" none "wmc.unknown")
